@@ -99,6 +99,11 @@ def impl(case):
                     user.bi = c()
                     h.elaborate(user)
                 out = "ok"
+            elif op["op"] == "revis":
+                # the visibility of a Signal edited on the object itself (it stays filed where it is until it is added again)
+                o_ = objs[op["v"]]
+                o_.vis = h.Visibility.INTERNAL if o_.vis == h.Visibility.PORT else h.Visibility.PORT
+                out = {"value": None}   # (the model's step for it is a look-up of the empty name: nothing changes)
             elif op["op"] == "steal":
                 v = val(op["v"])
                 if op["v"] == "other":
@@ -123,7 +128,7 @@ def line(case):
     return {"prop": "C18", "op": "ns_run", **case}
 
 
-def coherent(case, st, stolen=()):
+def coherent(case, st, stolen=(), kinds_now=None):
     """The property predicate on an implementation state. Returns None or a reason.
     `stolen`: objects that another container has adopted meanwhile (their name / parent are its)."""
     kinds = M_KINDS if case["cfg"] == "module" else B_KINDS
@@ -135,7 +140,7 @@ def coherent(case, st, stolen=()):
         if o == "foreign":
             return f"name {n} bound to an unknown object"
         for k in kinds:
-            want = o if (o is not None and case["objs"][o]["kind"] == k) else None
+            want = o if (o is not None and (kinds_now or {}).get(o, case["objs"][o]["kind"]) == k) else None
             if st["views"][k][n] != want:
                 return f"view {k}[{n}] = {st['views'][k][n]} but namespace[{n}] = {o}"
         if o is not None and o not in stolen:
@@ -149,7 +154,14 @@ def coherent(case, st, stolen=()):
 def judge(case, im, mo):
     reserved = set(M_NAMES[3:] if case["cfg"] == "module" else B_NAMES[3:])
     stolen = set()
+    # the kind each Signal is *filed* under: what it was when it was last added (a later edit of its `vis` re-files nothing)
+    vis_now = {i: o["kind"] for i, o in enumerate(case["objs"])}
+    filed = dict(vis_now)
     for k, (op, a, b) in enumerate(zip(case["ops"], im["trace"], mo["trace"])):
+        if op["op"] == "revis":
+            vis_now[op["v"]] = {"signal": "port", "port": "signal"}.get(vis_now[op["v"]], vis_now[op["v"]])
+        if op["op"] in ("setattr", "add") and a["out"] == "ok" and op["v"] != "other" and not (op["op"] == "setattr" and op["key"].startswith("_")):
+            filed[op["v"]] = vis_now[op["v"]]
         if op["op"] == "steal" and op["v"] != "other":
             stolen.add(op["v"])
         if op["op"] in ("setattr", "add") and a["out"] == "ok" and op["v"] != "other" and not (op["op"] == "setattr" and op["key"].startswith("_")):
@@ -157,7 +169,7 @@ def judge(case, im, mo):
         if "corrupt" in a["state"]:
             yield ("pred", f"after op {k} {op}: the container can no longer be inspected: {a['state']['corrupt']}")
             return
-        why = coherent(case, a["state"], stolen)
+        why = coherent(case, a["state"], stolen, filed)
         if why:
             yield ("pred", f"after op {k} {op}: {why}", None)
             return
@@ -224,6 +236,8 @@ def gen_case(rng, cfg, nops, with_elab):
         elif r < 0.93:
             # (attribute deletion is refused whatever the name: HDL attribute, reserved, native or private)
             ops.append({"op": "delattr", "name": rng.choice([nm, nm, "_initialized", "_private", "namespace"])})
+        elif r < 0.95 and cfg == "module" and not with_elab and any(o["kind"] in ("signal", "port") for o in objs):
+            ops.append({"op": "revis", "v": rng.choice([i for i, o in enumerate(objs) if o["kind"] in ("signal", "port")])})
         elif r < 0.97 and not with_elab:
             ops.append({"op": "steal", "v": v, "key": rng.choice(names[:3])})
         elif with_elab:
